@@ -8,10 +8,13 @@
    well and the `else` branches of the code are dead.  No proofs in this file. *)
 From Coq Require Import List ZArith QArith Qcanon Bool Arith.
 From Dimod Require Import Base.Util Model.Poly.
+From Dimod Require Export Model.EqualLang.
+From Dimod Require Import Gen.Gen_EqualCatches.
 Import ListNotations.
 Open Scope Qc_scope.
 
-Inductive exn := AttrErr | ValErr | KeyErr.
+(* exn (AttrErr | ValErr | KeyErr) is defined in Model/EqualLang.v; the except clauses come from
+   Gen/Gen_EqualCatches.v (translators/equal_catches.py) *)
 Inductive out := Val (b : bool) | Raise (e : exn).
 
 Definition exn_eqb (a b : exn) : bool :=
@@ -143,7 +146,7 @@ Definition body_vs_cqm (a : emdl) (c : cqm) : out :=
 (* the except clauses: BQM catches AttributeError; QM and views catch (AttributeError,
    ValueError) since the repair (before it: AttributeError only) *)
 Definition catches_of (a : emdl) : list exn :=
-  match e_cls a with EB _ => [AttrErr] | EQ => [AttrErr; ValErr] end.
+  match e_cls a with EB _ => gen_catches_is_equal_bqm | EQ => gen_catches_is_equal_qm end.
 Definition catches_orig (a : emdl) : list exn := [AttrErr].
 
 Definition is_equal_with (catches : emdl -> list exn) (a : emdl) (o : obj) : out :=
@@ -250,7 +253,8 @@ Definition almost_body (p : nat) (a b : emdl) : out :=
                                      | Some y => Val (almost_eqb p (snd t) y)
                                      end) (e_quad a)))))).
 
-Definition almost_catches : list exn := [AttrErr; ValErr].
+(* one list serves all classes: Proofs/EqualCatchesFacts.v proves the three generated lists equal *)
+Definition almost_catches : list exn := gen_catches_is_almost_equal_qm.
 
 Definition is_almost_equal_code (p : nat) (a : emdl) (o : obj) : out :=
   match o with
